@@ -85,6 +85,15 @@ class CSSMediaRule(cssrule.CSSRuleRules):
             - :exc:`~xml.dom.NoModificationAllowedErr`:
               Raised if the rule is readonly.
         """
+        # a rejected text must leave the rule as it was
+        oldMedia, oldCssRules = self._media, self._cssRules
+        try:
+            self._parseCssText(cssText)
+        except Exception:
+            self._media, self._cssRules = oldMedia, oldCssRules
+            raise
+
+    def _parseCssText(self, cssText):
         # media "name"? { cssRules }
         super(CSSMediaRule, self)._setCssText(cssText)
 
@@ -138,6 +147,7 @@ class CSSMediaRule(cssrule.CSSRuleRules):
 
             # check for {
             if '{' != self._tokenvalue(end):
+                self._media, self._cssRules = oldMedia, oldCssRules
                 self._log.error('CSSMediaRule: No "{" found: %s' %
                                 self._valuestr(cssText))
                 return
